@@ -62,6 +62,9 @@ func isBoundary(tpe, text string) (string, bool) {
 func Classify(c Case) (bool, []string) {
 	set := map[string]bool{}
 	nt := false
+	if c.ReuseTarget && len(c.Reqs) > 1 {
+		set["struct target reused for the next request"] = true
+	}
 	for i, d := range c.Decls {
 		set["in="+d.In] = true
 		if d.isArray() {
@@ -99,6 +102,9 @@ func Classify(c Case) (bool, []string) {
 		}
 		for _, r := range c.Reqs {
 			s := r.Sent[i]
+			if d.In == "formData" && cutForm(c, r) {
+				set[fmt.Sprintf("form: multipart body with its last %d byte(s) missing", r.CutTail)] = true
+			}
 			if d.In == "formData" {
 				if r.Multipart {
 					set["form: multipart"] = true
